@@ -183,14 +183,40 @@ func program(c Case) (setup, main string) {
 			fmt.Fprintf(&slots, " (s%d :initform 0)", i)
 			fmt.Fprintf(&slotsF, " (s%d 0)", i)
 		}
-		if c.Variant%2 == 0 {
+		// variants 4 and 6: every routine also asks for synchronization again before each of its updates (an
+		// instance that is synchronized already must keep the lock the other routines are using)
+		rearm := ""
+		if c.Variant%8 >= 4 {
+			rearm = "(set-synchronized *box* t) "
+		}
+		if c.Variant%2 == 0 && c.Variant%4 == 2 {
+			// a flavor instance: own instance variable set through the settable method, a neighbour's read
+			setup = fmt.Sprintf(`
+(defflavor c17-fbox (%s) () :gettable-instance-variables :settable-instance-variables)
+(defvar *box* nil) (defvar *done* nil)
+(defun fbumper (id getter setter other) (vt:begin)
+  (dotimes (i %d) %%s(send *box* setter (1+ (send *box* getter))) (vt:sink id (send *box* other)))
+  (vt:end) (channel-push *done* id))
+`, slotsF.String(), c.M)
+			setup = fmt.Sprintf(setup, rearm)
+			fmt.Fprintf(&sb, "(progn (setq *box* (make-instance 'c17-fbox)) (set-synchronized *box* t) (setq *done* (make-channel %d))", c.N+2)
+			for i := 0; i < c.N; i++ {
+				fmt.Fprintf(&sb, " (run (fbumper %d :s%d :set-s%d :s%d))", i, i, i, (i+1)%c.N)
+			}
+			fmt.Fprintf(&sb, " (dotimes (i %d) (channel-pop *done*)) (list", c.N)
+			for i := 0; i < c.N; i++ {
+				fmt.Fprintf(&sb, " (send *box* :s%d)", i)
+			}
+			sb.WriteString("))")
+		} else if c.Variant%2 == 0 {
 			setup = fmt.Sprintf(`
 (defclass c17-box () (%s))
 (defvar *box* nil) (defvar *done* nil)
 (defun bumper (id slot other) (vt:begin)
-  (dotimes (i %d) (setf (slot-value *box* slot) (1+ (slot-value *box* slot))) (vt:sink id (slot-value *box* other)))
+  (dotimes (i %d) %%s(setf (slot-value *box* slot) (1+ (slot-value *box* slot))) (vt:sink id (slot-value *box* other)))
   (vt:end) (channel-push *done* id))
 `, slots.String(), c.M)
+			setup = fmt.Sprintf(setup, rearm)
 			fmt.Fprintf(&sb, "(progn (setq *box* (make-instance 'c17-box)) (set-synchronized *box* t) (setq *done* (make-channel %d))", c.N+2)
 			for i := 0; i < c.N; i++ {
 				fmt.Fprintf(&sb, " (run (bumper %d 's%d 's%d))", i, i, (i+1)%c.N)
@@ -644,7 +670,7 @@ func gen(rt *rapid.T) Case {
 		M:        rapid.SampledFrom([]int{5, 20, 50, 100, 200}).Draw(rt, "ops"),
 		Cap:      rapid.IntRange(0, 8).Draw(rt, "cap"),
 		Procs:    rapid.SampledFrom([]int{1, 2, 4, 16}).Draw(rt, "procs"),
-		Variant:  rapid.IntRange(0, 5).Draw(rt, "variant"),
+		Variant:  rapid.IntRange(0, 7).Draw(rt, "variant"),
 		Warm:     rapid.Bool().Draw(rt, "warm"),
 	}
 	if c.Template == "tables" && c.M > 20 {
@@ -654,16 +680,38 @@ func gen(rt *rapid.T) Case {
 }
 
 var conc = h.Prop[Case]{Name: "concurrent", Gen: gen, Run: run}
+var concGrid = h.Prop[Case]{Name: "concurrent-grid", Run: run}
 
 func TestC17(t *testing.T) {
 	h.Rule("program template x parameters: producers/consumers over buffered and unbuffered channels (pop loop and range), mutex-guarded counters leaving the lock normally, by return-from and by error, " +
-		"a synchronized CLOS instance with one slot per routine, a hash table of counters under a mutex, concurrent defvar/defun plus calls of a shared function and a shared generic and pretty printing; " +
+		"a synchronized CLOS instance and a synchronized flavor instance with one slot per routine (also with every routine asking for synchronization again before each update), a hash table of counters under a mutex, concurrent defvar/defun plus calls of a shared function and a shared generic and pretty printing; " +
 		"2-8 routines x 5-200 operations x capacity 0-8 x GOMAXPROCS {1,2,4,16} x cold/warm; every run in its own -race worker process. Oracles: exactly-once delivery and per-producer order, no overlap of critical " +
 		"sections and exact counter, no lost update, definitions visible and results equal to the sequential ones, printed text equal to the single-threaded rendering, no Go fatal error, no deadline, " +
 		"no race report with a slip frame whose signature is not a known finding. Non-trivial: >= 2 routines were active at the same time and >= 50 shared operations. Distinct by case JSON. " +
 		"Schedules are sampled by the Go scheduler under the race detector, not enumerated.")
 	h.Assume("the Go race detector reports only real races; a schedule that was not hit is not covered")
 	loadKnown()
+	// every template in every variant once (cold and warm), so that no template/variant depends on being drawn
+	h.RunProp(t, concGrid, 0)
+	h.Enumerate(t, concGrid, func(yield func(Case) bool) {
+		sh := h.C.Shard
+		for _, tv := range []struct {
+			t  string
+			vs []int
+		}{{"channels", []int{0, 1}}, {"mutex", []int{0, 1, 2}}, {"sync-instance", []int{0, 1, 2, 4, 6}}, {"tables", []int{0}}, {"generic", []int{0}}} {
+			for _, v := range tv.vs {
+				for _, warm := range []bool{false, true} {
+					c := Case{Template: tv.t, N: 3 + (sh+v)%4, M: 40 + 20*((sh+v)%3), Cap: (sh + v) % 3, Procs: []int{4, 16, 2, 8}[(sh+v)%4], Variant: v, Warm: warm}
+					if c.Template == "tables" && c.M > 20 {
+						c.M = 20
+					}
+					if !yield(c) {
+						return
+					}
+				}
+			}
+		}
+	})
 	h.RunProp(t, conc, h.N(50, 800))
 	for _, k := range known {
 		line := fmt.Sprintf("KNOWN-FINDING: property=C17 %s %s (race signature %s; observed in %d runs of this check)", k.ID, k.What, k.Sig, knownSeen[k.ID])
